@@ -97,6 +97,27 @@ CHECKS["C17"] = dict(
     text="After a seeded fault prefix (loss, duplication, partitions incl. single cut links, crashes, restarts, membership changes, transfers, snapshots/compaction) every started replica runs, no message is lost, replicas get pairwise distinct election timeouts and a fair scheduler runs 2x40 (thorough 2x60) rounds with a probe proposal and a probe linearizable read at every replica; TLC then requires: a leader exists, every running member is in its term and caught up to its commit index (by log or snapshot), every probe completed. All PreVote/CheckQuorum settings; every step is also checked against Raft.tla.",
     note=RAFT_NOTE + " Progress within the stated bound, not unbounded liveness; quiesce and the rate limiter are outside rsim; replicas whose removal was applied are stopped before the fair period (a removed replica that keeps running disrupts elections without PreVote/CheckQuorum: known Raft behaviour).")
 
+NH_NOTE = ("Trusted: TLC, the Go toolchain, the nhsim harness (in-process NodeHosts over lni/vfs strict MemFS, a recording ITransport and "
+           "ILogDB wrapper, instrumented state machines; /verif/harness/root/nhsim_*_test.go). Real goroutine schedules and wall-clock "
+           "ticks: schedules are sampled, each recorded execution is decided completely by TLC. A crash is simulated in-process "
+           "(durability and network cut at one instant, optionally at the N-th file-system operation); torn writes inside one Write call are not modelled.")
+
+CHECKS["C01"] = dict(
+    engine="tlc+nhsim", category="model_checking", design_ref="5 C01",
+    technique="TLA+ linearizability checker (ClientHistory.tla, powerset construction over the atomic register file) run by TLC on client histories recorded from clusters of real NodeHosts; the checker's reductions are validated exhaustively against the textbook definition by TLC (MCClientHistory)",
+    text="Seeded client programs (4 clients; NoOP-session writes, registered-session writes with retries through other hosts, SyncRead, ReadIndex+ReadLocalNode, on every replica incl. followers and non-voting replicas) run against 3-, 4- (3 voters + 1 non-voting) and 5-host clusters of real NodeHosts under seeded faults: loss, delay/reordering, symmetric and asymmetric partitions, leader+companion minority partitions, leader transfers, power loss of hosts (also at the N-th file-system operation) and restarts, snapshots with compaction; regular, concurrent and on-disk state machines; Pebble and Tan; all PreVote/CheckQuorum settings. TLC decides every recorded history: linearizable w.r.t. the sequential register file with Timeout/Dropped/Terminated/lost operations taking effect once or never, refused/rejected ones never. MCClientHistory: for every history of 2-3 clients and 3-4 operations (millions) the checker agrees with the unreduced definition; a vacuity run shows it rejects histories.",
+    note=NH_NOTE + " The network wrapper never duplicates or fabricates a message (premise of the property).")
+CHECKS["C04"] = dict(
+    engine="tlc+nhsim", category="model_checking", design_ref="5 C04",
+    technique="TLA+ pipeline specification (Pipeline.tla) model-checked exhaustively with a crash at every step (MCPipeline) and evaluated by TLC on Save/Send/Crash/Boot event streams of real NodeHosts (PipelineTrace)",
+    text="MCPipeline: every interleaving of step / send-free-order / save / send / commit with an adversarial environment and power loss at any pc, PersistBeforeSend and RestartMonotone hold (284k states); the mutated order (send before save) is refuted (vacuity check). PipelineTrace on real executions: a recording ILogDB (stamped after SaveRaftState returned) and a recording ITransport (stamped at egress) share one sequence; for every message that implies durable state (votes, vote requests, replication acks, heartbeat responses, ...) TLC requires the term/vote/entries it implies in the durable image built from the completed saves; after every power loss (also at the N-th file-system operation, repeated on a partitioned host, clean restarts in between) the image the log store returns must cover everything the replica told the world; finally all hosts lose power at once and every proposal that was reported Completed must be visible to a linearizable read. Pebble and Tan.",
+    note=NH_NOTE + " Observation skew (save stamped late, egress stamped early) can only hide an ordering, never invent one.")
+CHECKS["C11"] = dict(
+    engine="tlc+nhsim", category="exploration", design_ref="5 C11",
+    technique="TLA+ contract monitor (SMContract.tla) evaluated by TLC on Enter/Exit event streams of instrumented IStateMachine / IConcurrentStateMachine / IOnDiskStateMachine objects inside real NodeHosts",
+    text="Every user state machine method emits Enter/Exit events (sequence number under one mutex as first/last statement: an overlap in the trace is a real overlap). Scenarios: the nhsim fault mix, plus contract scenarios with two shards sharing one snapshot worker, slow SaveSnapshot/Sync/PrepareSnapshot, continuous local and exported snapshot requests, shard stop/restart while snapshot jobs are pending, power loss + restart so that lagging replicas are streamed snapshots, periodic Sync every 15 ticks, and NodeHost.Close while requests are in flight. TLC checks per object: exclusive group never overlaps and is never called after Close; plain SM readers never overlap writers; Update indexes strictly increasing, above the recovered snapshot / Open index; every entry that reached Update anywhere reaches every object whose life covers its index exactly once; same entry at the same index everywhere.",
+    note=NH_NOTE + " Exploration level: schedules are perturbed by seeded sleeps inside the callbacks, not enumerated.")
+
 NOT_APPLICABLE = {
     "C13": "encode/decode fidelity and size arithmetic of hand-written codecs over the numeric input space: no state/transition structure for a TLA+ specification to describe (DESIGN.md section 6)",
 }
@@ -150,6 +171,8 @@ def main():
             {"name": "tlc+rsim", "path": "/verif/lib/raftfamily.py",
              "serves_properties": ["C02", "C03", "C06", "C07", "C17", "C18"],
              "kind_free_text": "TLC exhaustive model checking of MCRaft + TLC trace validation (RaftTrace) of executions of the real internal/raft recorded by the rsim harness"},
+            {"name": "tlc+nhsim", "path": "/verif/lib/nhfamily.py", "serves_properties": ["C01", "C04", "C11"],
+             "kind_free_text": "TLC model checking (MCPipeline, MCClientHistory) + TLC evaluation (ClientHistoryTrace, PipelineTrace, SMContractTrace) of event streams recorded from in-process clusters of real NodeHosts (harness/root/nhsim_*_test.go)"},
             {"name": "tlc+smsim", "path": "/verif/lib/rsmchecks.py", "serves_properties": ["C05", "C08", "C07"],
              "kind_free_text": "TLC model checking of MCRSM + TLC trace validation (RSMTrace) of real rsm.StateMachine instances driven by harness/rsm/smsim_test.go"},
             {"name": "tlc+lssim", "path": "/verif/lib/logstore.py", "serves_properties": ["C09", "C10"],
